@@ -160,12 +160,13 @@ PriorPredict ==
   /\ Rec([a |-> "PriorPredict", pv |-> pv, dv |-> dv])
 
 \* ---- state-changing public operations -----------------------------------------------------------
-SetTrainData ==
+\* set_train_data(inputs=, targets=): either argument may be omitted; every form changes the data and drops the strategy
+SetTrainData(which) ==
   /\ Room /\ Exact /\ dv < MaxV
   /\ dv' = dv + 1
   /\ ClearOwners(SetDataClears)
   /\ UNCHANGED <<mode, pv, initd, updated>> /\ served' = {}
-  /\ Rec([a |-> "SetTrainData"])
+  /\ Rec([a |-> "SetTrainData", which |-> which])
 
 LoadStateDict ==
   /\ Room /\ pv < MaxV
@@ -191,7 +192,8 @@ Backward ==
 Settings == [fpv : BOOLEAN, detach : BOOLEAN, jit : IF Var THEN Jit ELSE {"d0"}, lazy : IF HasKern THEN BOOLEAN ELSE {TRUE}]
 
 Next ==
-  \/ Train \/ Eval \/ OptStep \/ PriorPredict \/ SetTrainData \/ LoadStateDict \/ GetFantasy \/ Backward
+  \/ Train \/ Eval \/ OptStep \/ PriorPredict \/ LoadStateDict \/ GetFantasy \/ Backward
+  \/ \E w \in {"both", "targets", "inputs"} : SetTrainData(w)
   \/ \E s \in Settings : (Var => s.fpv = FALSE /\ s.detach = TRUE) /\ Predict(s)
 
 Spec == Init /\ [][Next]_vars
